@@ -37,6 +37,9 @@ type DiffOptions struct {
 	Extra      bool // compare uninterpreted operators
 	WidthXOps  bool // compare defaultWidthX / nominalWidthX and the presence of Subrs
 	ExactReals bool // reals must be identical instead of equal to nine digits
+
+	// RealEq, if set, replaces the comparison of real-valued operands.
+	RealEq func(want, got float64) bool
 }
 
 type differ struct {
@@ -54,6 +57,9 @@ func (d *differ) num(what string, want, got float64) {
 	ok := Close9(want, got)
 	if d.opt.ExactReals {
 		ok = want == got
+	}
+	if d.opt.RealEq != nil {
+		ok = d.opt.RealEq(want, got)
 	}
 	if !ok {
 		d.fail("%s: want %v, got %v", what, want, got)
